@@ -25,7 +25,7 @@ import numpy as np
 from . import tlc
 from .core import Ctx, MachineryError
 from .emis_common import GSE_NOMINAL_CO2, balance, close, fuel_obj, load_emis_config, model, nonzero, synthetic_traj
-from .store_replay import pmap
+from .store_replay import fresh_map, pmap
 
 OPTION_SETS = [
     {},
@@ -46,7 +46,7 @@ def run_case(job):
         from AEIC.performance.types import ThrustMode
         from AEIC.types import Species
 
-        opts = dict(OPTION_SETS[oi])
+        opts = dict(OPTION_SETS[oi]) if isinstance(oi, int) else dict(oi)
         force_apu_off = opts.pop('apu_force_off', False)
         cfgd = dict(opts, mode=case['mode'], gse=bool(case['gse']), apu=(case['apu'] != 'absent') and not force_apu_off)
         if fuelname == 'SAF':
@@ -80,6 +80,11 @@ def run_case(job):
                             break
         trajfuel = case['trajfuel'] / 1000.0
         ltofuel = {m: case['ltofuel'][m] / 1000.0 for m in MODES}
+        # "trajectory+LTO CO2 and H2O equal the fuel's EI times trajectory+LTO fuel": an enabled species that is absent counts as zero
+        for sname, on in (('CO2', cfgd.get('co2', True)), ('H2O', cfgd.get('h2o', True))):
+            sp = Species[sname]
+            if on and trajfuel + sum(ltofuel.values()) > 0 and (sp not in em.trajectory_emissions or sp not in em.lto_emissions):
+                devs.append(('fuel-counted-once', f'{sname} is enabled but the trajectory / LTO part does not carry it: trajectory+LTO {sname} = 0; EI x (trajectory + LTO fuel {trajfuel + sum(ltofuel.values())} kg) is not'))
         if Species.CO2 in em.lto_emissions:
             for m in ThrustMode:
                 got = float(em.lto_emissions[Species.CO2][m]) / fuel.EI_CO2
@@ -108,11 +113,21 @@ def run_case(job):
         return [('machinery', f'{type(e).__name__}: {e}\n{traceback.format_exc()}')]
 
 
+def run_session(jobs):
+    """EmissionsSession.tla behaviour: the inventories of a session one after the other in this (freshly forked) process."""
+    for k, job in enumerate(jobs):
+        devs = run_case(job)
+        if devs:
+            earlier = [{**(j[1] if isinstance(j[1], dict) else OPTION_SETS[j[1]]), 'mode': j[0]['mode']} for j in jobs[:k]]
+            return [(key if key == 'machinery' else f'session:{key}', f'inventory {k + 1} of a session (earlier in this process: {earlier}): {desc}') for key, desc in devs]
+    return []
+
+
 def run(ctx: Ctx):
     ctx.rule = (
         'flights = every integer fuel-mass profile of 2..4 points with segment burns in {0,1,2,5} kg x every phase split (nc, nd) x both accounting '
         'modes x 2 LTO flow sets x APU absent/idle/running x GSE on/off (13 728, TLC-enumerated), each run under an option set and aircraft class '
-        'chosen by seed (thorough: 5 option sets, 4 classes, 2 fuels round-robin over all); non-trivial = zero-burn segment, empty or total window, or lto mode'
+        'chosen by seed (thorough: 5 option sets, 4 classes, 2 fuels round-robin over all); 256 sessions of two inventories under every ordered pair of CO2/H2O/SOx/mode switch settings, each session in a fresh process; non-trivial = zero-burn segment, empty or total window, or lto mode'
     )
     ctx.assumptions += [
         'altitude / airspeed / fuel-flow profiles come from a fixed lattice incl. a stratospheric point and zero / above-take-off fuel flows',
@@ -121,6 +136,10 @@ def run(ctx: Ctx):
     ]
     if ctx.replay:
         c = json.loads(Path(ctx.replay).read_text())['case']
+        if 'session' in c:
+            for key, desc in fresh_map(run_session, [[tuple(j) for j in c['session']]])[0]:
+                ctx.violation(key, desc, c)
+            return
         for key, desc in run_case((c['case'], c['opt'], c['aclass'], c['fuel'])):
             ctx.violation(key, desc, c)
         return
@@ -131,6 +150,31 @@ def run(ctx: Ctx):
         cases = cases[:8000]
     else:
         ctx.exhaustive = True
+    # sessions: the balance of an inventory does not depend on what the process computed before.  Every ordered pair of
+    # the 16 switch settings CO2 / H2O / SOx / accounting mode (EmissionsSession.tla), each pair in a freshly forked process
+    tlc.check(ctx, 'emissions/EmissionsSession', 'emissions/MC_EmissionsSession.cfg', workers=4)
+    sess_cfgs = tlc.check(ctx, 'emissions/EmissionsSession', 'emissions/Gen_EmissionsSession.cfg', workers=4)['emitted']
+    by_mode = {m: [c for c in cases if c['mode'] == m and c['n'] >= 3] for m in ('trajectory', 'lto')}
+    sessions = []
+    for si, sc in enumerate(sess_cfgs):
+        sj = []
+        for k, e in enumerate(sc):
+            cf = e['cfg']
+            pool = by_mode[cf['mode']]
+            sj.append((pool[(7 * si + k) % len(pool)], {'co2': cf['co2'], 'h2o': cf['h2o'], 'sox': cf['sox']}, CLASSES[si % 4], 'conventional_jetA' if si % 5 else 'SAF'))
+        sessions.append(sj)
+    load_emis_config({})
+    model(), fuel_obj(), fuel_obj('SAF')
+    ctx.log(f'computing {len(sessions)} sessions of 2 inventories, each in a fresh process')
+    for sj, devs in zip(sessions, fresh_map(run_session, sessions)):
+        ctx.case_done(('session', [(j[0]['mode'], j[1]) for j in sj]), nontrivial=True)
+        seen = set()
+        for key, desc in devs:
+            if key == 'machinery':
+                raise MachineryError('emissions session worker failed: ' + desc)
+            if key not in seen:
+                seen.add(key)
+                ctx.violation(key, desc, {'session': [list(j) for j in sj]})
     jobs = []
     for i, c in enumerate(cases):
         jobs.append((c, i % len(OPTION_SETS), CLASSES[(i // 5) % 4], 'conventional_jetA' if i % 7 else 'SAF'))
